@@ -58,6 +58,20 @@ proof fn lemma_closed_contains_reachable(graph: Map<ModuleReference, HashSet<Mod
   }
 }
 
+/// every module that occurs in the graph as an import target, or in the initial set: the (finite) universe the
+/// worklist of transitive_set moves in.  Sets are finite in this vstd, so its cardinality bounds the number of insertions.
+spec fn universe(graph: Map<ModuleReference, HashSet<ModuleReference>>, init: Set<ModuleReference>) -> Set<ModuleReference> {
+  init.union(graph.values().map(|h: HashSet<ModuleReference>| h@).flatten())
+}
+
+proof fn lemma_edge_target_in_universe(graph: Map<ModuleReference, HashSet<ModuleReference>>, init: Set<ModuleReference>, m: ModuleReference, n: ModuleReference)
+  requires has_edge(graph, m, n)
+  ensures universe(graph, init).contains(n)
+{
+  assert(graph.values().contains(graph[m]));
+  assert(graph.values().map(|h: HashSet<ModuleReference>| h@).contains(graph[m]@));
+}
+
 proof fn lemma_contains_drop_last<A>(s: Seq<A>, m: A)
   requires s.len() > 0, s.contains(m)
   ensures m == s.last() || s.drop_last().contains(m)
@@ -82,7 +96,6 @@ proof fn lemma_contains_push<A>(s: Seq<A>, x: A, m: A)
 
 //@extract crates/samlang-services/src/dep_graph.rs :: fn transitive_set
 //@ret r
-//@attr #[verifier::exec_allows_no_decreases_clause]
 //@replace initial.into_iter().collect_vec() => hashset_into_vec(initial) ## R3: itertools collect_vec over a consumed HashSet
 //@letchain if result.insert(mod_ref) && let Some(edges) = graph.get(&mod_ref)
 //@contract
@@ -93,6 +106,11 @@ proof fn lemma_contains_push<A>(s: Seq<A>, x: A, m: A)
       forall|m: ModuleReference, k: nat| reachable(graph@, initial@, m, k) ==> r@.contains(m),  // :result_contains_everything_reachable
 //@before while let Some(mod_ref) = stack.pop() {
   let ghost mut gstack = stack@;
+  proof {
+    assert forall|m: ModuleReference| stack@.contains(m) implies universe(graph@, initial@).contains(m) by {
+      assert(stack@.to_set().contains(m));
+    }
+  }
 //@loop 0
       invariant
         vstd::std_specs::hash::obeys_key_model::<ModuleReference>(),
@@ -100,8 +118,12 @@ proof fn lemma_contains_push<A>(s: Seq<A>, x: A, m: A)
         forall|m: ModuleReference| initial@.contains(m) ==> result@.contains(m) || stack@.contains(m),
         forall|m: ModuleReference, n: ModuleReference| result@.contains(m) && #[trigger] has_edge(graph@, m, n)
           ==> result@.contains(n) || stack@.contains(n),
+        // termination: the visited set only grows inside a finite universe; between two insertions the stack shrinks
+        result@.subset_of(universe(graph@, initial@)),
+        forall|m: ModuleReference| stack@.contains(m) ==> universe(graph@, initial@).contains(m),
       ensures
         stack@.len() == 0,
+      decreases universe(graph@, initial@).len() - result@.len(), stack@.len(),
 //@loopstart 0
     let ghost result0 = result@;
     proof {
@@ -110,9 +132,27 @@ proof fn lemma_contains_push<A>(s: Seq<A>, x: A, m: A)
       assert forall|m: ModuleReference| gstack.contains(m) implies m == mod_ref || stack@.contains(m) by {
         lemma_contains_drop_last(gstack, m);
       }
+      // termination bookkeeping: the popped module and what stays on the stack lie in the universe
+      assert(gstack[gstack.len() - 1] == mod_ref);
+      assert(gstack.contains(mod_ref));
+      assert forall|m: ModuleReference| stack@.contains(m) implies gstack.contains(m) by {
+        let i = choose|i: int| 0 <= i < stack@.len() && stack@[i] == m;
+        assert(gstack[i] == m);
+      }
+      assert forall|m: ModuleReference| stack@.contains(m) implies universe(graph@, initial@).contains(m) by {
+        assert(gstack.contains(m));
+      }
     }
 //@loopend 0
     proof {
+      // termination: a new module makes the visited set larger (it stays inside the finite universe); otherwise the stack is one shorter
+      assert(result@ == result0.insert(mod_ref));
+      assert(result@.subset_of(universe(graph@, initial@)));
+      vstd::set_lib::lemma_len_subset(result@, universe(graph@, initial@));
+      if result0.contains(mod_ref) {
+        assert(result@ == result0);
+        assert(stack@ == gstack.drop_last());
+      }
       assert forall|m: ModuleReference| initial@.contains(m) implies result@.contains(m) || stack@.contains(m) by {
         if !result0.contains(m) { assert(gstack.contains(m)); }
       }
@@ -138,6 +178,8 @@ proof fn lemma_contains_push<A>(s: Seq<A>, x: A, m: A)
               ==> result0.contains(n) || gstack.contains(n),
             forall|n: ModuleReference| #[trigger] edges@.contains(n) ==> stack@.contains(n)
               || exists|j: int| it.index() <= j < it.seq().len() && *#[trigger] it.seq()[j] == n,
+            forall|m: ModuleReference| stack@.contains(m) ==> universe(graph@, initial@).contains(m),
+            it.seq().unref().to_set() == edges@,
 //@beforetail
   proof {
     assert(stack@.len() == 0);
@@ -158,6 +200,13 @@ proof fn lemma_contains_push<A>(s: Seq<A>, x: A, m: A)
         proof {
           assert forall|m: ModuleReference| s_before.contains(m) implies stack@.contains(m) by { lemma_contains_push(s_before, *e, m); }
           lemma_contains_push(s_before, *e, *e);
+          assert(*e == *it.seq()[idx]);
+          assert(it.seq().unref()[idx] == *e);
+          assert(it.seq().unref().contains(*e));
+          assert(it.seq().unref().to_set().contains(*e));
+          assert(has_edge(graph@, mod_ref, *e));
+          lemma_edge_target_in_universe(graph@, initial@, mod_ref, *e);
+          assert forall|m: ModuleReference| stack@.contains(m) implies universe(graph@, initial@).contains(m) by { lemma_contains_push(s_before, *e, m); }
           assert forall|n: ModuleReference| #[trigger] edges@.contains(n) implies stack@.contains(n)
               || exists|j: int| idx + 1 <= j < it.seq().len() && *#[trigger] it.seq()[j] == n by {
             if !s_before.contains(n) {
